@@ -402,13 +402,16 @@ class Model:
                 if now != was:
                     bad = f'prefix {u} is not declared, yet selector {op[2]!r} was taken: {r.selectorText!r}'
             if want is not None and now != was:
-                st.expected[id(r)] = pairset([want]) if k == 'set_sel' else pairset(list(st.expected.get(id(r), [])) + [want])
-        elif k == 'sheet_text_refused' and pre['textA'] != self._text(A):
+                if k == 'set_sel':
+                    st.expected[id(r)] = pairset([want])
+                elif id(r) in st.expected:
+                    st.expected[id(r)] = pairset(list(st.expected[id(r)]) + [want])
+        elif k == 'sheet_text_refused' and any(id(r) not in pre['ids'] for r in style_rules(A)):
             rules = [r for r in style_rules(A) if id(r) not in pre['ids']]
             for r in rules:
                 st.expected[id(r)] = pairset([expect_pairs('q|e', {'q': 'urn:a'})])
             st.keep.append(rules)
-        elif k == 'sheet_text' and pre['textA'] != self._text(A):
+        elif k == 'sheet_text' and any(id(r) not in pre['ids'] for r in style_rules(A)):
             text, decl, sels = SHEET_TEXTS[op[1]]
             if mapping(A) != set(decl.items()):
                 note['lastwins'] = f'text {text!r} declares {sorted(decl.items())} (last declaration of a URI wins), the mapping is {sorted(mapping(A), key=repr)}'
@@ -648,9 +651,9 @@ def classify(clause, op, pre, info):
     roots = info.get('roots', {}).get(info.get('sheet'), set())
     if info.get('delreq'):
         # _Namespaces.__delitem__ passes the position among the @namespace rules to deleteRule, which takes a position in the whole list
-        kinds = pre['kinds']
-        firstns = kinds.index('NAMESPACE_RULE') if 'NAMESPACE_RULE' in kinds else -1
-        if firstns > 0:
+        positions = [i for i, kd in enumerate(pre['kinds']) if kd == 'NAMESPACE_RULE']
+        js = [j for j, (px, _) in enumerate(pre['nsA']) if px == op[1]]
+        if js and positions[js[-1]] != js[-1]:      # the rule to delete is not at the same position in the whole list as among the @namespace rules
             return 'C15-mapping-delete-wrong-index'
     if clause == 'the last declaration of a URI wins' and op[0] == 'add_ns' and info.get('declare'):
         # ordered add of an @namespace rule whose prefix is bound to another URI: the clean-up lets the OLDER rule of a prefix win and deletes the new one
